@@ -1105,3 +1105,45 @@ pub fn gen(rng: &mut Rng, bias: Bias) -> Script {
     }
     Script { cfg, ops }
 }
+
+/// Bounded-exhaustive family (thorough tier): two calls, then every sequence of `len` ops over
+/// {poll call 0/1, poll dispatch, answer id 0 (twice with different values) / id 1, abandon
+/// call 0, step the clock past both deadlines}.
+pub fn sweep(len: usize, mut f: impl FnMut(Script)) {
+    let alpha = [
+        Op::PollCall(0),
+        Op::PollCall(1),
+        Op::PollD,
+        Op::Deliver(0, 7),
+        Op::Deliver(1, 8),
+        Op::Deliver(0, 9),
+        Op::DropCall(0),
+        Op::Adv(60),
+    ];
+    for (q, m) in [(1usize, 1usize), (2, 2)] {
+        let mut idx = vec![0usize; len];
+        loop {
+            let mut ops = vec![
+                Op::Call { h: 0, d: 50, tid: 11, sampled: true, body: 1 },
+                Op::Call { h: 0, d: 50, tid: 22, sampled: false, body: 2 },
+            ];
+            ops.extend(idx.iter().map(|&i| alpha[i].clone()));
+            f(Script { cfg: Cfg { qcap: q, maxif: m, cap: 0, coupled: true }, ops });
+            let mut p = 0;
+            loop {
+                if p == len {
+                    break;
+                }
+                idx[p] += 1;
+                if idx[p] < alpha.len() {
+                    break;
+                }
+                idx[p] = 0;
+                p += 1;
+            }
+            if p == len {
+                break;
+            }
+        }
+    }
+}
